@@ -64,7 +64,9 @@ def gen_call(rng):
     fn = rng.choice(["map", "map", "map", "histogram2d", "histogram2d", "histogram1d", "scatter", "plot"])
     c = {"fn": fn, "opts": {o: rng.random() < 0.4 for o in OPTS}, "sched_seed": rng.getrandbits(40), "T": rng.choice([1, 2, 3, 4])}
     if fn == "map":
-        c["layers"] = rng.sample([0, 1, 2], rng.choice([1, 1, 2]))
+        c["layers"] = rng.sample([0, 1, 2], rng.choice([1, 1, 2, 3]))
+        # an overlay layer (mode="scatter") at some position among the rendered layers
+        c["scatter_at"] = rng.choice([None, None, 0, 1, 2])
         c["resolution"] = rng.choice(["shared-dict", "shared-dict", "int", "own-dict"])
         c["thick"] = rng.random() < 0.4
         c["use_origin"] = rng.random() < 0.7
@@ -180,6 +182,7 @@ class Shared:
                 if case["layer_opts"][k][o]:
                     kw[o] = LAYER_VALUES[o]
             self.layers.append(self.dg.layer(keys[k], **kw))
+        self.scatter_layer = self.dg.layer("position", mode="scatter", s=2.0)
         self.res_dict = dict(case["res_dict"])
         self.origin = osyris.Vector(0.43, 0.52, 0.61, unit="cm")
         self.dxq = 0.9 * osyris.units("cm")
@@ -200,7 +203,7 @@ class Shared:
         self.plot_dict = {"x": self.dg["density"], "y": self.dg["temperature"]}
 
     def everything(self):
-        return {"dg": self.dg, "layers": self.layers, "res_dict": self.res_dict, "origin": self.origin, "dxq": self.dxq, "dzq": self.dzq,
+        return {"dg": self.dg, "layers": self.layers, "scatter_layer": self.scatter_layer, "res_dict": self.res_dict, "origin": self.origin, "dxq": self.dxq, "dzq": self.dzq,
                 "bins_list": self.bins_list, "weights": self.weights, "h1_layers": self.h1_layers, "color": self.color, "size": self.size,
                 "plot_dict": self.plot_dict}
 
@@ -249,6 +252,8 @@ def run_call(case, call, S, sims, reference_layer=None):
         if fn == "map":
             if reference_layer is None:
                 layers = [S.layers[k] for k in call["layers"]]
+                if call.get("scatter_at") is not None:
+                    layers.insert(min(call["scatter_at"], len(layers)), S.scatter_layer)
                 kw = call_kwargs(call, S)
             else:
                 layers = [S.dg.layer(keys[reference_layer])]
@@ -537,6 +542,8 @@ def reductions(case, viol):
                 yield dict(case, calls=case["calls"][:i] + [cc] + case["calls"][i + 1:])
         if c.get("T", 1) > 1:
             yield dict(case, calls=case["calls"][:i] + [dict(c, T=1)] + case["calls"][i + 1:])
+        if c.get("scatter_at") is not None:
+            yield dict(case, calls=case["calls"][:i] + [dict(c, scatter_at=None)] + case["calls"][i + 1:])
         for flag in ("thick", "use_origin", "plot", "limits", "weights_call"):
             if c.get(flag):
                 yield dict(case, calls=case["calls"][:i] + [dict(c, **{flag: False})] + case["calls"][i + 1:])
